@@ -29,6 +29,7 @@ type Clause struct {
 type LoopSpec struct {
 	Inv  []Clause
 	Decr []Clause
+	Hint []Clause // proved, then assumed, at the start of every iteration (introduces terms the solver needs)
 	Mod  []string // extra modified names (ghost)
 }
 
@@ -421,6 +422,10 @@ func (p *Program) parseSpecs(pkg *packages.Package) {
 					case "decreases":
 						if c, ok := mk(fs[2]); ok {
 							ls.Decr = append(ls.Decr, c)
+						}
+					case "hint":
+						if c, ok := mk(fs[2]); ok {
+							ls.Hint = append(ls.Hint, c)
 						}
 					case "modifies":
 						for _, x := range strings.Split(fs[2], ",") {
